@@ -101,8 +101,8 @@ def compare_case(case, mres):
         return [('model', 'model entry returned %r' % (mres,))]
     mouts, mfinal = mres[1], mres[2]
     try:
-        iouts, ifinal = run_impl(case)
-    except Exception as e:
+        iouts, ifinal = common.time_limited(20, run_impl, case)
+    except (Exception, common.ImplTimeout) as e:
         import traceback
         return [('impl.exception', 'implementation raised %r\n%s' % (e, traceback.format_exc()[-1500:]))]
     diffs = []
@@ -120,15 +120,22 @@ def compare_case(case, mres):
 def run_cases(res, cases, owns, what, theorem=None, nontrivial=None, kernel_sample=10):
     margs = [[sessioncheck.mcfg(c['config']), model_events(c['events'])] for c in cases]
     mres = common.model_eval('session', margs)
+    timeouts = 0
     for c, m in zip(cases, mres):
+        if timeouts >= 3:
+            res.extra['stopped_after_timeouts'] = timeouts
+            break
         res.evaluations += 1
         r = compare_case(c, m)
         if r == 'oom':
             res.out_of_model += 1
             continue
         mine = [(cat, det) for cat, det in r if owns(cat) or cat in ('model', 'harness', 'impl.exception')]
+        timed_out = any(cat == 'impl.exception' and 'ImplTimeout' in det for cat, det in mine)
+        if timed_out:
+            timeouts += 1
         if mine:
-            c2 = shrink(c, owns)
+            c2 = c if timed_out else shrink(c, owns)
             m2 = common.model_eval('session', [[sessioncheck.mcfg(c2['config']), model_events(c2['events'])]], shards=1)[0]
             r2 = compare_case(c2, m2)
             if r2 != 'oom' and r2:
